@@ -163,6 +163,11 @@ static const pcall CALLS[] = {
      * 1 external, 2 chained, 3 split families) on the boundary domain that
      * ScalarGen.tla generates (VERIF_SCALAR_VALUES); the destination window's
      * previous content differs from schedule to schedule */
+    /* dictionary object: histories of builds, then encode / find with it (values
+     * outside the dictionary included: the documented answer is 0 / -1) */
+    {"dictobj", 0, 0, "rebuild_small", 0}, {"dictobj", 0, 0, "rebuild_large", 0}, {"dictobj", 0, 0, "miss_high", 0},
+    {"dictobj", 0, 0, "miss_fresh", 0},    {"dictobj", 0, 0, "miss_low", 0},      {"dictobj", 0, 0, "find", 0},
+    {"dictobj", 0, 0, "patterns", 0},
     {"scalar", 0, 0, "boundary", 0},       {"scalar", 1, 0, "boundary", 0},
     {"scalar", 2, 0, "boundary", 0},       {"scalar", 3, 0, "boundary", 0},
 };
@@ -523,6 +528,102 @@ static void run_bitmap_call(size_t ci, const char *sched, const char *proc) {
 }
 
 
+
+/* --- dictionary-object histories ----------------------------------------- */
+static __attribute__((noinline)) size_t dict_history(const char *h, uint64_t salt, uint8_t *dst, uint64_t *aux) {
+    varintDict *d = varintDictCreate();
+    uint64_t a[300], b[40], q[8];
+    size_t w = 0;
+    if (!d) {
+        return 0;
+    }
+    for (size_t i = 0; i < 300; i++) {
+        a[i] = 1000 + 7 * i + salt;
+    }
+    for (size_t i = 0; i < 40; i++) {
+        b[i] = 10 * (i % 10 + 1) + salt;
+    }
+    *aux = 0;
+    if (!strcmp(h, "rebuild_small")) {
+        varintDictBuild(d, a, 300);
+        varintDictBuild(d, b, 40);
+        w = varintDictEncodeWithDict(dst, d, b, 40);
+    } else if (!strcmp(h, "rebuild_large")) {
+        varintDictBuild(d, b, 40);
+        varintDictBuild(d, a, 300);
+        w = varintDictEncodeWithDict(dst, d, a, 300);
+    } else if (!strncmp(h, "miss_", 5)) {
+        if (!strcmp(h, "miss_high")) {
+            varintDictBuild(d, a, 20); /* a larger dictionary first: its entries stay behind the new end */
+        }
+        varintDictBuild(d, b, 40);
+        q[0] = b[0];
+        q[1] = b[9];
+        q[2] = !strcmp(h, "miss_low") ? 1 + salt : !strcmp(h, "miss_high") ? a[10] : 5000 + salt;
+        w = varintDictEncodeWithDict(dst, d, q, 3); /* documented: 0, a value is not in the dictionary */
+    } else if (!strcmp(h, "patterns")) {
+        /* values above every entry that coincide with what the storage behind the last entry may hold:
+         * the residue patterns of the schedules (all ones, the allocation fills, the painted count) */
+        static const uint64_t PAT[] = {~(uint64_t)0, 0xFEFEFEFEFEFEFEFEULL, 0xA1A1A1A1A1A1A1A1ULL,
+                                       0x7F7F7F7F7F7F7F7FULL, 0x4242};
+        varintDictBuild(d, b, 40);
+        q[0] = b[0];
+        q[1] = b[9];
+        for (size_t k = 0; k < 5; k++) {
+            q[2] = PAT[k];
+            w += varintDictEncodeWithDict(dst, d, q, 3); /* 0 each time */
+            *aux = *aux * 31 + (uint64_t)(int64_t)varintDictFind(d, PAT[k]);
+        }
+    } else {
+        varintDictBuild(d, a, 300);
+        varintDictBuild(d, b, 40);
+        uint64_t acc = 0;
+        uint64_t probes[] = {0, 1 + salt, b[0], b[0] + 1, b[9], b[9] + 1, a[5], ~(uint64_t)0};
+        for (size_t i = 0; i < 8; i++) {
+            acc = acc * 31 + (uint64_t)(int64_t)varintDictFind(d, probes[i]);
+        }
+        acc = acc * 31 + varintDictLookup(d, 0) + varintDictLookup(d, 9);
+        *aux = acc;
+    }
+    varintDictFree(d);
+    return w;
+}
+static void dictobj_prev_cb(const char *arg, const void *ctx) {
+    const pcall *c = (const pcall *)ctx;
+    static uint8_t scratch[8192];
+    uint64_t aux;
+    const char *h = strncmp(arg, "same", 4) ? "rebuild_large" : c->shape;
+    for (uint64_t salt = 3; salt <= 4; salt++) {
+        (void)GUARDED(dict_history(h, salt, scratch, &aux));
+    }
+}
+static void run_dictobj_call(size_t ci, const char *sched, const char *proc) {
+    const pcall *c = &CALLS[ci];
+    apply_sched(sched, 0x4242, ci, dictobj_prev_cb, c);
+    uint8_t *dst = malloc(8192);
+    memset(dst, 0x3C, 8192);
+    size_t written = 0;
+    uint64_t aux = 0;
+    int f = GUARDED(written = dict_history(c->shape, 0, dst, &aux));
+    set_perturb(0x5E);
+    uint64_t h = 1469598103934665603ULL;
+    for (size_t i = 0; !f && i < written && i < 8192; i++) {
+        h = (h ^ dst[i]) * 1099511628211ULL;
+    }
+    ev_begin("Call");
+    ev_str("id", g_cur_id);
+    ev_str("proc", proc);
+    ev_str("sched", sched);
+    ev_int("fault", f);
+    ev_int("written", f ? -1 : (long long)written);
+    ev_limbs("digest", h);
+    ev_int("decoded", 0);
+    ev_limbs("ydigest", aux);
+    ev_bytes("head", dst, f ? 0 : (written < 40 ? written : 40));
+    ev_end();
+    free(dst);
+}
+
 /* --- scalar varints -------------------------------------------------------- */
 static uint64_t g_sc_h, g_sc_hy;
 static long long g_sc_bytes, g_sc_calls;
@@ -662,6 +763,10 @@ static void run_call(size_t ci, const char *sched, const char *proc) {
     }
     if (!strcmp(c->codec, "scalar")) {
         run_scalar_call(ci, sched, proc);
+        return;
+    }
+    if (!strcmp(c->codec, "dictobj")) {
+        run_dictobj_call(ci, sched, proc);
         return;
     }
     int codec = -1;
